@@ -696,7 +696,9 @@ def c14(tier):
     poly = pool.polymorphic_site_programs(limit=tier_sizes(tier, 120, None), rng=random.Random(seed() + 3))
     progs += poly
     chk.notes['polymorphic_call_site_programs'] = len(poly)
-    outs, vs = judge_programs(chk, exe, progs, wd, 'c14', budget=3000)
+    # dispatch after many allocations (state kept per heap index or per call site must not leak between objects)
+    progs += [p for p in pool.workload_programs() if 'prototypes' in p['name'] or 'allocations' in p['name'] or 'accounts' in p['name'] or 'linked-list' in p['name']]
+    outs, vs = judge_programs(chk, exe, progs, wd, 'c14', budget=20000)
     amb = len([v for v in vs.values() if v.get('amb')])
     chk.notes['programs_with_delegated_method_found_in_parent'] = amb
     for i in (3, len(progs) // 2, len(progs) - 1):
